@@ -299,6 +299,8 @@ def c11_units(tier, seed):
         for s in (1, 2):
             us.append(dict(id=f"C11a[sect={s},base={b}]", harness="calendar.VH_C11_Routes", params={"Y": b, "SECT": s}))
             us.append(dict(id=f"C11b[sect={s},base={b}]", harness="calendar.VH_C11_PillarPure", params={"Y": b, "SECT": s}))
+    ys = sorted(set(year_set(tier, seed)) | set(range(1840, 2160))) if q else range(1, 9999)
+    us += [dict(id=f"C11c[Y={Y}]", harness="calendar.VH_C11_YearObject", params={"Y": Y}) for Y in ys]
     return us
 
 
